@@ -22,11 +22,17 @@ class Context:
         self.broken = []             # proof obligations / translator groups that no longer check
         self.notes = []
         self.extra = {}
+        self.changed_units = []      # modelled source units whose text changed since the model was validated (advisory)
         self.t0 = time.time()
 
     @property
     def thorough(self):
         return self.tier == "thorough"
+
+    @property
+    def widen(self):
+        """search harder: an obligation is broken, or the source of a modelled unit changed"""
+        return bool(self.broken) or bool(self.changed_units)
 
 
 # ------------------------------------------------------------------------------------------------
@@ -88,7 +94,7 @@ def c14_run(ctx):
         ns = [(n, n % 2) for n in range(1, 256)] + [(255, 0), (254, 1), (2, 0), (1, 1)]
     else:
         ns = [(n, n % 2) for n in list(range(1, 11)) + [15, 16, 17, 31, 32, 33, 129]] + [(2, 0), (3, 1)]
-        if ctx.broken:
+        if ctx.widen:
             # a proof obligation / translated definition no longer checks: widen the search for a concrete failing input
             ns += [(64, 0), (128, 1), (200, 1), (255, 0)]
     ns = sorted(set(ns))
@@ -143,21 +149,21 @@ BIAS = {
 def machine_run(prop, streams=("random",)):
     def f(ctx):
         cfgs = MM.thorough_configs(ctx.rng) if ctx.thorough else MM.quick_configs(ctx.rng)
-        if prop == "C04" and (ctx.thorough or ctx.broken):
+        if prop == "C04" and (ctx.thorough or ctx.widen):
             # the largest limit the id type allows, with guards that redirect forever
             cfgs = cfgs + [G.Config(2, L=255, cap=2, head=False, payload="none", ctx="ref"),
                            G.Config(3, L=255, cap=1, head=True, manual=True, payload="none", ctx="ref")]
         # C17 (behaviour must not depend on anything but the history): the same configurations also under other
         # compilers / optimisation levels — an uninitialised read typically shows up as a difference between them
         toolchains = [("g++", "-O1")]
-        if prop == "C17" and (ctx.thorough or ctx.broken):
+        if prop == "C17" and (ctx.thorough or ctx.widen):
             toolchains += [("clang++-14", "-O2"), ("g++", "-O2"), ("clang++-14", "-O0")]
         jobs = [(c, cxx, opt) for (cxx, opt) in toolchains for c in (cfgs if (cxx, opt) == toolchains[0] else cfgs[:5])]
         with ThreadPoolExecutor(max_workers=C.NCPU) as ex:
             built = list(ex.map(lambda j: MM.build(j[0], cxx=j[1], opt=j[2]), jobs))
         ctx.extra["toolchains"] = ["%s %s" % t for t in toolchains]
         cfgs_run = [j[0] for j in jobs]
-        ncase = 400 if ctx.thorough else 90
+        ncase = 400 if ctx.thorough else (250 if ctx.widen else 90)
         for cfg, (exe, logtxt) in zip(cfgs_run, built):
             if exe is None:
                 ctx.failures.append({"what": "machine harness does not compile against the current headers for " + cfg.cfg_line(),
@@ -195,7 +201,7 @@ def machine_run(prop, streams=("random",)):
             if prop in ("C16", "C17"):
                 flat = []
                 for kk, (case, a) in enumerate(zip(cases, ci)):
-                    tw = O.twin_cases(prop, case, a) if (ctx.thorough or ctx.broken or kk % 3 == 0) else []
+                    tw = O.twin_cases(prop, case, a) if (ctx.thorough or ctx.widen or kk % 3 == 0) else []
                     twin_plan[id(case)] = tw
                     flat += [(id(case), tc) for (_, tc, _) in tw]
                 if flat:
@@ -583,10 +589,11 @@ def run_property(ctx):
     fp = C.fingerprints()
     if fp.get("error"):
         ctx.broken.append({"obligation": "source fingerprints", "why": fp["error"]})
-    for unit in fp.get("props", {}).get(ctx.prop, []):
-        ctx.broken.append({"obligation": "source fingerprint of `%s` (include/ffsm2/machine.hpp) — the model of this unit was validated against different text" % unit,
-                           "why": "changed / missing / new since tools/fingerprints.json was recorded"})
+    # a changed unit is NOT a verdict and not even a broken obligation (a behaviour-preserving rewrite must stay
+    # silent): it only tells the search where to dig — the check then generates as in the thorough tier
+    ctx.changed_units = fp.get("props", {}).get(ctx.prop, [])
     ctx.extra["fingerprinted_units"] = fp.get("units")
+    ctx.extra["units_changed_since_model_validation"] = ctx.changed_units
     # 2. driver + proofs
     ok, logtxt = C.ensure_driver()
     proof = {"obligations": 0, "discharged": 0, "theorems": [], "axioms": {}, "broken": []}
